@@ -8,6 +8,8 @@ import concurrent.futures as cf
 import vlib
 
 VARIANTS = ["Randomized", "Randomized-ALPN", "Randomized-NoALPN"]
+NEXTPROTOS = [[], ["h2"], ["h2", "http/1.1"], ["foo"]]          # Config.NextProtos shapes ([] = nil)
+SNIS = ["example.com", "a-rather-long-server-name.subdomain.of.some.example-domain.org", "a.b"]
 GEN_PCS = ["alpn", "shuffleCiphers", "tls13", "min", "shuffle13", "remove", "sha1", "p521sig", "pss256", "pss384",
            "shuffleSigs", "mlkemGroup", "x25519", "p521curve", "padding", "status", "sct", "reneg", "ems",
            "p256first", "ksP256", "ksMLKEM", "alps", "shuffleExts"]
@@ -43,8 +45,9 @@ def make_cases(ctx, names, default, n):
         seed = corner_seeds[i] if i < len(corner_seeds) else [rnd.randrange(256) for _ in range(32)]
         if i % 97 == 50:
             seed = []      # seedless: the library draws the seed on the first connection
+        # (variant, weight family) repeat with period 6: NextProtos steps every 6 cases, the server name every 24
         cases.append({"variant": variant, "seed": seed, "weights": wgo, "wclass": {k: wclass(v) for k, v in wabs.items()},
-                      "sni": "example.com", "tag": tag})
+                      "sni": SNIS[(i // 24) % len(SNIS)], "alpn": NEXTPROTOS[(i // 6) % len(NEXTPROTOS)], "tag": tag})
     return cases, len(vectors)
 
 
@@ -130,6 +133,15 @@ def run(ctx):
     if missing:
         raise vlib.Machinery("C09 vacuity: generator steps never matched while replaying real specs: %s" % missing)
 
+    # ---- vacuity of the NextProtos dimension: TLS 1.3 specs without ALPN generated with a non-empty NextProtos must exist
+    for shape in NEXTPROTOS[1:]:
+        hit = [e for e, c in zip(evs, cases) if c["alpn"] == shape and not e["err"] and e["d1"].get("max") == 772
+               and not any(x["kind"] == "ALPNExtension" for x in e["d1"]["exts"])]
+        if len(hit) < 5:
+            raise vlib.Machinery("C09 vacuity: only %d TLS 1.3 specs without ALPN were generated with NextProtos %r" % (len(hit), shape))
+    if not any(e.get("src") == "uconn" for e in evs) or not any(e.get("src") == "spec" for e in evs):
+        raise vlib.Machinery("C09 vacuity: both generation paths (UTLSIdToSpec, connection) must be exercised")
+
     # ---- binding canary: corrupted copies of accepted events must be rejected for the stated reason
     bad_idx = {i for i, _, _ in rejected}
     good13 = next((i for i, e in enumerate(evs) if i not in bad_idx and e["d1"].get("max") == 772
@@ -178,7 +190,8 @@ def run(ctx):
                 reps.append(i)
         if not reps:
             raise vlib.Machinery("C09: rejection class %s was not reproduced when its cases were re-run alone" % sig)
-        ex = [{"variant": cases[i]["variant"], "seed_hex": bytes(evs[i]["seed"]).hex(), "weights": cases[i]["tag"]} for i in reps[:5]]
+        ex = [{"variant": cases[i]["variant"], "seed_hex": bytes(evs[i]["seed"]).hex(), "weights": cases[i]["tag"],
+               "next_protos": cases[i]["alpn"], "server_name": cases[i]["sni"]} for i in reps[:5]]
         ctx.finding(sig, "randomized spec rejected by spec/Randomized.tla (%s): %d of %d generated specs, e.g. %s seed %s" % (
             sig, len(idxs), len(evs), ex[0]["variant"], ex[0]["seed_hex"]),
             {"class": sig, "cases": len(idxs), "of": len(evs), "examples": ex,
@@ -198,7 +211,8 @@ def run(ctx):
            "rule": "evaluations = (variant, weights, seed) triples, each generated twice (2 reflection dumps + 2 wire hellos) and judged by TLC; distinct = distinct (variant, versions, #suites, extension set) shapes among them",
            "samples": [{"variant": cases[i]["variant"], "weights": cases[i]["tag"], "seed_hex": bytes(evs[i]["seed"]).hex(),
                         "suites": evs[i]["d1"].get("suites"), "exts": [x["kind"] for x in evs[i]["d1"].get("exts", [])]} for i in (0, 1, 2)],
-           "weight_vectors": nvec, "tls13_specs": n13, "seedless_cases": sum(1 for e in evs if e.get("seedless")),
+           "weight_vectors": nvec, "nextprotos_shapes": NEXTPROTOS, "sni_shapes": len(SNIS),
+           "generated_via_connection": sum(1 for e in evs if e.get("src") == "uconn"), "tls13_specs": n13, "seedless_cases": sum(1 for e in evs if e.get("seedless")),
            "model": {"distinct_states": mc.distinct, "generated": mc.generated, "invariants_violated": model_viol,
                      "weight_vectors": "basic (all-either, default, all-0, all-1)" if ctx.quick else "all (basic + every single weight at 0 and at 1)",
                      "actions_covered": len(GEN_ACTIONS), "pools": {k: sum(1 for s in suites if s["Pool"] and pred(s)) for k, pred in (
